@@ -482,7 +482,8 @@ func TestVerifC34(t *testing.T) {
 	c := vkit.New("C34", "exploration")
 	defer c.Finish(t)
 	c.Rule("part 1: every sequence of NAL units up to the length bound over (unit type x payload shape) x every assignment of 3-/4-byte start codes x every chunking of the stream x SEI inclusion on/off, for the H.264 and the H.265 reader; " +
-		"part 2: every NAL header value (H.264: 256 first bytes; H.265: all 65536 two-byte headers in the thorough tier) alone/first/last in a stream. " +
+		"part 2: every NAL header value (H.264: 256 first bytes; H.265: all 65536 two-byte headers in the thorough tier) alone/first/last in a stream; " +
+		"part 3: every in-domain unit body of length 1..5 (thorough 6) over the bytes {00,01,02,03,80} between two ordinary units x start-code widths x chunkings {1,3,whole}. " +
 		"A case is counted as distinct by (codec, sequence of unit types, SEI inclusion) resp. (codec, header class, position); it is non-trivial when the own splitter confirmed it lies in the domain (no emulated start code, no trailing zero) and the real reader was run on it")
 	c.Assume("the delivering stream returns data and io.EOF in separate Read calls (a final Read returning n>0 together with io.EOF is not part of the enumerated chunkings)")
 	c.Assume("H.265 units shorter than the two header bytes are checked for their bytes only, not for parsed header fields")
@@ -632,6 +633,53 @@ func TestVerifC34(t *testing.T) {
 		evalHdr("h265", u, other265)
 	})
 	c.Sample(c34Case{"h265", []string{"IDR/hdr+1", "type39/hdr+1"}, []int{4, 3}, "whole", false, "000000012601880000014e0180"})
+
+	// ---- part 3: every payload over the bytes a start-code scanner treats specially
+	// all byte strings of length 1..L over {00, 01, 02, 03, 80} that lie in the domain (no emulated start code, no
+	// trailing zero) as the body of a slice unit, between two ordinary units, x start-code widths x chunkings
+	// {1, 3, whole}: e.g. "00 01 00 01" (zeros separated by 01 are not consecutive)
+	alpha := []byte{0x00, 0x01, 0x02, 0x03, 0x80}
+	maxBody := 5
+	if !quick {
+		maxBody = 6
+	}
+	var bodies [][]byte
+	var rec func(cur []byte)
+	rec = func(cur []byte) {
+		if len(cur) > 0 {
+			bodies = append(bodies, append([]byte{}, cur...))
+		}
+		if len(cur) == maxBody {
+			return
+		}
+		for _, b := range alpha {
+			rec(append(cur, b))
+		}
+	}
+	rec(nil)
+	smallChunk := []c34Chunking{chunkings[0], chunkings[2], chunkings[6]}
+	nSmall := int64(0)
+	vkit.Parallel(len(bodies), func(i int) {
+		for _, cd := range []struct {
+			codec string
+			hdr   []byte
+			typ   string
+			other c34Unit
+		}{{"h264", []byte{0x41}, "nonIDR", other264}, {"h265", []byte{0x02, 0x01}, "TRAIL", other265}} {
+			u := c34Unit{Type: cd.typ, Shape: "small-alphabet", Data: append(append([]byte{}, cd.hdr...), bodies[i]...)}
+			// the H.264 header byte 0x41 followed by the body, the H.265 header 02 01 followed by the body
+			if !c34Clean(u.Data) {
+				continue
+			}
+			atomic.AddInt64(&nSmall, 1)
+			for w := 3; w <= 4; w++ {
+				for _, ch := range smallChunk {
+					c34Eval(c, cd.codec, []c34Unit{cd.other, u, cd.other}, []int{4, w, 7 - w}, ch, true)
+				}
+			}
+		}
+	})
+	c.Set("small_alphabet_bodies_in_domain", atomic.LoadInt64(&nSmall))
 	c.Set("cases_outside_domain_skipped", atomic.LoadInt64(&c34Skipped))
 	if n := atomic.LoadInt64(&c34Skipped); n != 0 {
 		vkit.Fatalf(t, "%d generated cases are outside the domain of the statement (harness error)", n)
